@@ -637,4 +637,190 @@ theorem listMax_lt (l : List Nat) (n : Nat) (hn : 0 < n) (h : ∀ i ∈ l, i < n
     have := h a List.mem_cons_self
     omega
 
+
+/-! ### lookups by ID through masks -/
+
+theorem lookupBy_nil_right (ids : List Id) (id : Id) : lookupBy ids ([] : List β) id = none := by
+  cases ids <;> rfl
+
+theorem lookupBy_cons (i : Id) (is : List Id) (x : β) (xs : List β) (id : Id) :
+    lookupBy (i :: is) (x :: xs) id = if i = id then some x else lookupBy is xs id := rfl
+
+theorem lookupBy_map (f : β → γ) (ids : List Id) (xs : List β) (id : Id) :
+    lookupBy ids (xs.map f) id = (lookupBy ids xs id).map f := by
+  induction ids generalizing xs with
+  | nil => cases xs <;> rfl
+  | cons i is ih =>
+    cases xs with
+    | nil => rfl
+    | cons x xs =>
+      simp only [List.map_cons, lookupBy_cons]
+      split
+      · rfl
+      · exact ih xs
+
+theorem lookupBy_none_of_not_mem (ids : List Id) (xs : List β) (id : Id) (h : id ∉ ids) :
+    lookupBy ids xs id = none := by
+  induction ids generalizing xs with
+  | nil => cases xs <;> rfl
+  | cons i is ih =>
+    cases xs with
+    | nil => rfl
+    | cons x xs =>
+      have hne : ¬ i = id := fun e => h (e ▸ List.mem_cons_self)
+      simp only [lookupBy_cons, hne, ↓reduceIte]
+      exact ih xs (fun hm => h (List.mem_cons_of_mem _ hm))
+
+theorem lookupBy_some_of_mem (ids : List Id) (xs : List β) (id : Id) (h : id ∈ ids)
+    (hl : ids.length ≤ xs.length) : ∃ x, lookupBy ids xs id = some x ∧ x ∈ xs := by
+  induction ids generalizing xs with
+  | nil => cases h
+  | cons i is ih =>
+    cases xs with
+    | nil => simp at hl
+    | cons x xs =>
+      by_cases hi : i = id
+      · exact ⟨x, by simp [lookupBy_cons, hi], List.mem_cons_self⟩
+      · have hm : id ∈ is := by
+          rcases List.mem_cons.mp h with e | hm
+          · exact absurd e.symm hi
+          · exact hm
+        obtain ⟨y, hy, hyx⟩ := ih xs hm (by simpa using hl)
+        exact ⟨y, by simp [lookupBy_cons, hi, hy], List.mem_cons_of_mem _ hyx⟩
+
+/-- masking IDs and values together does not disturb the lookup of a kept ID -/
+theorem lookupBy_filterMask (ids : List Id) (xs : List β) (m : List Bool) (id : Id)
+    (hnd : ids.Nodup) (hin : id ∈ filterMask ids m) :
+    lookupBy (filterMask ids m) (filterMask xs m) id = lookupBy ids xs id := by
+  induction ids generalizing xs m with
+  | nil => simp [filterMask_nil_left] at hin
+  | cons i is ih =>
+    have hnd' := List.nodup_cons.mp hnd
+    cases m with
+    | nil => simp [filterMask_nil_right] at hin
+    | cons b bs =>
+      cases xs with
+      | nil => simp [filterMask_nil_left, lookupBy_nil_right]
+      | cons x xs =>
+        cases b
+        · simp only [filterMask_cons, Bool.false_eq_true, ↓reduceIte] at hin ⊢
+          have hne : ¬ i = id := fun e => hnd'.1 (e ▸ mem_filterMask hin)
+          simp only [lookupBy_cons, hne, ↓reduceIte]
+          exact ih xs bs hnd'.2 hin
+        · simp only [filterMask_cons, ↓reduceIte] at hin ⊢
+          simp only [lookupBy_cons]
+          by_cases hi : i = id
+          · simp [hi]
+          · simp only [hi, ↓reduceIte]
+            rcases List.mem_cons.mp hin with e | hm
+            · exact absurd e.symm hi
+            · exact ih xs bs hnd'.2 hm
+
+theorem any_congr_mem {f g : β → Bool} (l : List β) (h : ∀ x ∈ l, f x = g x) : l.any f = l.any g := by
+  induction l with
+  | nil => rfl
+  | cons a as ih =>
+    simp only [List.any_cons, h a List.mem_cons_self,
+      ih (fun x hx => h x (List.mem_cons_of_mem _ hx))]
+
+def optAny (q : β → Bool) : Option β → Bool
+  | some x => q x
+  | none => false
+
+/-- `any` over the kept entries of a vector, told by ID -/
+theorem any_filterMask_byId (ids : List Id) (r : List β) (p : Id → Bool) (q : β → Bool)
+    (hnd : ids.Nodup) :
+    (filterMask r (ids.map p)).any q = (ids.filter p).any (fun k => optAny q (lookupBy ids r k)) := by
+  induction ids generalizing r with
+  | nil => simp [filterMask_nil_right]
+  | cons s ss ih =>
+    have hnd' := List.nodup_cons.mp hnd
+    cases r with
+    | nil =>
+      simp only [filterMask_nil_left, List.any_nil, lookupBy_nil_right, optAny]
+      symm; rw [List.any_eq_false]; intro _ _; simp
+    | cons x xs =>
+      have htail : (ss.filter p).any (fun k => optAny q (lookupBy (s :: ss) (x :: xs) k)) =
+          (ss.filter p).any (fun k => optAny q (lookupBy ss xs k)) := by
+        apply any_congr_mem
+        intro k hk
+        have hks : k ∈ ss := (List.mem_filter.mp hk).1
+        have hne : ¬ s = k := fun e => hnd'.1 (e ▸ hks)
+        simp only [lookupBy_cons, hne, ↓reduceIte]
+      simp only [List.map_cons, filterMask_cons, List.filter_cons]
+      cases hp : p s
+      · simp only [Bool.false_eq_true, ↓reduceIte]
+        rw [htail]; exact ih xs hnd'.2
+      · simp only [↓reduceIte, List.any_cons]
+        rw [htail, ih xs hnd'.2]
+        simp only [lookupBy_cons, ↓reduceIte, optAny]
+
+/-- masking by a content predicate = filtering the IDs by that predicate told by ID -/
+theorem filterMask_map_byId (ids : List Id) (xs : List β) (f : β → Bool) (hnd : ids.Nodup)
+    (hl : ids.length = xs.length) :
+    filterMask ids (xs.map f) = ids.filter (fun i => optAny f (lookupBy ids xs i)) := by
+  induction ids generalizing xs with
+  | nil => simp [filterMask_nil_left]
+  | cons i is ih =>
+    have hnd' := List.nodup_cons.mp hnd
+    cases xs with
+    | nil => simp at hl
+    | cons x xs =>
+      have hl' : is.length = xs.length := by simpa using hl
+      have htail : is.filter (fun k => optAny f (lookupBy (i :: is) (x :: xs) k)) =
+          is.filter (fun k => optAny f (lookupBy is xs k)) := by
+        apply List.filter_congr
+        intro k hk
+        have hne : ¬ i = k := fun e => hnd'.1 (e ▸ hk)
+        simp only [lookupBy_cons, hne, ↓reduceIte]
+      simp only [List.map_cons, filterMask_cons, List.filter_cons]
+      rw [htail, ih xs hnd'.2 hl']
+      simp only [lookupBy_cons, ↓reduceIte, optAny]
+
+theorem lookupBy_eq_getElem (ids : List Id) (xs : List β) (id : Id) (h : id ∈ ids) :
+    lookupBy ids xs id = xs[ids.idxOf id]? := by
+  induction ids generalizing xs with
+  | nil => cases h
+  | cons i is ih =>
+    cases xs with
+    | nil => simp [lookupBy_nil_right]
+    | cons x xs =>
+      by_cases hi : i = id
+      · subst hi; simp [lookupBy_cons, List.idxOf_cons]
+      · have hm : id ∈ is := by
+          rcases List.mem_cons.mp h with e | hm
+          · exact absurd e.symm hi
+          · exact hm
+        have hb : (i == id) = false := by simpa using hi
+        simp only [lookupBy_cons, hi, ↓reduceIte, List.idxOf_cons, hb, cond_false,
+          List.getElem?_cons_succ]
+        exact ih xs hm
+
+theorem colAt_length (rows : List (List β)) (j : Nat) (h : ∀ r ∈ rows, j < r.length) :
+    (colAt rows j).length = rows.length := by
+  induction rows with
+  | nil => rfl
+  | cons r rs ih =>
+    have hr := h r List.mem_cons_self
+    unfold colAt at ih ⊢
+    simp only [List.filterMap_cons, List.getElem?_eq_getElem hr, List.length_cons]
+    rw [ih (fun r' hr' => h r' (List.mem_cons_of_mem _ hr'))]
+
+theorem lookupBy_colAt (ids : List Id) (rows : List (List β)) (j : Nat) (id : Id)
+    (h : ∀ r ∈ rows, j < r.length) :
+    lookupBy ids (colAt rows j) id = (lookupBy ids rows id).bind (fun r => r[j]?) := by
+  induction ids generalizing rows with
+  | nil => cases rows <;> simp [colAt, lookupBy]
+  | cons i is ih =>
+    cases rows with
+    | nil => simp [colAt, lookupBy_nil_right]
+    | cons r rs =>
+      have hr := h r List.mem_cons_self
+      have ih' := ih rs (fun r' hr' => h r' (List.mem_cons_of_mem _ hr'))
+      unfold colAt at ih' ⊢
+      simp only [List.filterMap_cons, List.getElem?_eq_getElem hr, lookupBy_cons]
+      split
+      · simp [List.getElem?_eq_getElem hr]
+      · exact ih'
+
 end Biom.C14
